@@ -247,6 +247,8 @@ def run(c):
         c.extra["model_drift_examples"] = other[:5]
     c.extra["rejected_runs"] = len(bad)
     fold(c, t, out)
+    if not c.violations:
+        kk.cleanup_traces("c09_")
     c.exhaustive = False
     c.rule = ("histories = scripted sequences of host answers (documents of both protocol versions, enable/disable flips, rule "
               "documents replaced/removed per endpoint, key rotation, per-step failures of status/acquire/attest, mid-poll "
